@@ -525,6 +525,19 @@ func (c *Ctx) checkBorrowedTagsReturnedOnce(rule string) {
 					if name == "Put" {
 						puts = true
 						putPos = in.Pos()
+						// what goes back is empty: the next borrower appends the metric's tags to it
+						args := callArgs(ci)
+						emptied := false
+						if len(args) == 1 {
+							if sl, isSl := stripConv(args[0]).(*ssa.Slice); isSl && sl.High != nil {
+								if k, isK := constInt(sl.High); isK && k == 0 {
+									emptied = true
+								}
+							}
+						}
+						if !emptied {
+							c.bad(rule, c.fnKey(fn)+":emptied", in.Pos(), "a borrowed tag slice goes back to the pool without being truncated to length 0: the next bucket metric that borrows it appends its tags after the stale ones and is emitted with another metric's tags", c.describe(in))
+						}
 					}
 				}
 			}
